@@ -61,6 +61,7 @@ type scenario struct {
 	sequential                                                          int           // further requests issued one after another by caller 0
 	callerDeadline                                                      time.Duration // callers pass a context with their own deadline (later than the client timeout)
 	idleDrops                                                           int           // how many idle connections in a row the server may drop (default 1 when idleDrop is set)
+	closeFirst                                                          bool          // the server closes the connection at the first query (the scenario's given, not an explored move)
 }
 
 type callResult struct {
@@ -81,6 +82,7 @@ type world struct {
 	closes   int
 	nonce    byte
 	accepts  int
+	hsDrops  int // connections the server closed before answering the handshake
 	moves    []string
 }
 
@@ -102,6 +104,7 @@ func (w *world) serve(host string, conn *vnet.VConn) {
 	w.accepts++
 	if w.sc.dropInHandshake && w.closes == 1 && w.accepts == 2 && w.c.Choose(2) == 1 {
 		w.moves = append(w.moves, "drop-in-handshake")
+		w.hsDrops++
 		conn.Close()
 		return
 	}
@@ -203,7 +206,12 @@ func (w *world) serve(host string, conn *vnet.VConn) {
 				if w.sc.slow {
 					moves = []string{"slow-answer", "answer"}
 				}
-				mv := moves[w.c.Choose(len(moves))]
+				mv := ""
+				if w.sc.closeFirst && w.closes == 0 {
+					mv = "close" // this scenario's server drops the connection at the first query it sees: not a deviation
+				} else {
+					mv = moves[w.c.Choose(len(moves))]
+				}
 				w.moves = append(w.moves, mv)
 				switch mv {
 				case "answer":
@@ -301,6 +309,7 @@ func harnesses(r *fw.Run) []fw.HarnessSpec {
 		{name: "drop-during-reconnect", callers: 1, closeConn: true, dropInHandshake: true, fresh: true},
 		{name: "one-caller-sequence", callers: 1, sequential: 2, reorder: true, dup: true},
 		{name: "caller-context-with-later-deadline", callers: 2, withhold: true, callerDeadline: 20 * time.Second},
+		{name: "three-callers-server-closes-at-once", callers: 3, closeConn: true, closeFirst: true, fresh: true},
 		{name: "caller-context-with-earlier-deadline", callers: 2, withhold: true, callerDeadline: time.Second},
 		{name: "two-idle-drops-then-request", callers: 1, idle: 20 * time.Second, idleDrop: true, idleDrops: 2, fresh: true},
 	}
@@ -332,7 +341,7 @@ func runScenario(c *enum.Ctx, sc scenario) {
 	vnet.Current = &vnet.Net{Accept: w.serve}
 	var results []callResult
 	var setupErr error
-	liveBefore, liveAfter := -1, -1
+	liveBefore, liveAfter, liveEnd := -1, -1, -1
 	var freshErr error
 	freshDone := false
 	var okAfter bool
@@ -395,6 +404,9 @@ func runScenario(c *enum.Ctx, sc scenario) {
 				if err == nil && !bytes.Equal(res, answerFor([]byte("fresh"))) {
 					freshErr = fmt.Errorf("fresh request got %q", res)
 				}
+				// let the traces of the old connection die down before counting what is left
+				s.SleepUntil(s.Now().Add(12*time.Second), "settle")
+				liveEnd = s.LiveExcept("server")
 			}
 		}
 	})
@@ -474,6 +486,18 @@ func runScenario(c *enum.Ctx, sc scenario) {
 	// (6) goroutines do not accumulate with completed calls
 	if w.closes == 0 && liveBefore >= 0 && liveAfter > liveBefore {
 		c.Fail("goroutine-growth:"+sc.name, "%d live threads before the calls, %d after all %d calls returned", liveBefore, liveAfter, len(results))
+	}
+	// (7) the reconnected client runs the threads it ran before the drop: nothing of the dropped connection (or of a
+	// redundant reconnect) stays behind. (The number of connections opened per drop is not judged: on the unchanged tree
+	// two Sends that fail before the first reconnect goroutine runs lead to two reconnects in a row - wasteful, but the
+	// statement only asks for a working connection and no growth.)
+	if sc.fresh && w.closes > 0 && okAfter && freshDone && freshErr == nil {
+		if w.accepts > 1+w.closes+w.hsDrops {
+			c.Outcome("redundant-reconnect")
+		}
+		if liveBefore >= 0 && liveEnd > liveBefore {
+			c.Fail("goroutine-growth-after-reconnect:"+sc.name, "%d live client threads before the drop, %d after reconnecting and 12 quiet seconds", liveBefore, liveEnd)
+		}
 	}
 	// (4) reconnect
 	if sc.fresh && w.closes > 0 {
